@@ -110,6 +110,14 @@ def run_scenario(sc):
     lst = {}
 
     def rec(evname):
+        if evname == "disconnect":
+            # the documented signature of a disconnect listener: it is told whether the transport went down cleanly
+            def fd(session, was_clean):
+                if session not in sessions:
+                    sessions.append(session)
+                lst.setdefault(sessions.index(session), []).append(evname)
+            return fd
+
         def f(session, *a, **kw):
             if session not in sessions:
                 sessions.append(session)
